@@ -15,7 +15,8 @@ recursion allowed, checked), globals are emitted as C objects of mirrored
 struct types.
 
 Hooks (macros supplied by the including file, see harness/C08_rt.h):
-    OBS_BR(site, cond)          before every conditional br / switch
+    OBS_BR(site, cond)          at every conditional br / switch (emitted in the arm taken, with the
+                                constant the arm stands for; default arm of a switch: the operand)
     OBS_ADDR(site, ptr)         before every load / store / mem intrinsic operand
                                 (not emitted when ptr is a link-time constant: an alloca
                                 site -- a static object here --, a global, or a constant-index
@@ -1428,10 +1429,13 @@ class Translator:
                         ts.expect('label')
                         t2 = ts.next()[1][1:].strip('"')
                         site = self.new_site(fn, 'br', text)
-                        out.append(ind + "OBS_BR(%d, %s);" % (site, c))
+                        # the observation is made in the arm taken, as a constant: same log content, but
+                        # concrete per path when the checker explores paths separately
                         out.append(ind + "if (%s) {" % c)
+                        out.append(ind + "  OBS_BR(%d, 1);" % site)
                         out += edge(lab, t1, ind + "  ")
                         out.append(ind + "} else {")
+                        out.append(ind + "  OBS_BR(%d, 0);" % site)
                         out += edge(lab, t2, ind + "  ")
                         out.append(ind + "}")
                 elif op == 'switch':
@@ -1450,13 +1454,14 @@ class Translator:
                         cl = ts.next()[1][1:].strip('"')
                         cases.append((cv[1], cl))
                     site = self.new_site(fn, 'switch', text)
-                    out.append(ind + "OBS_BR(%d, %s);" % (site, v))
                     out.append(ind + "switch (%s) {" % v)
                     for (cv, cl) in cases:
                         out.append(ind + "case %s: {" % self.int_lit(cv, w))
+                        out.append(ind + "    OBS_BR(%d, %s);" % (site, self.int_lit(cv, w)))
                         out += edge(lab, cl, ind + "    ")
                         out.append(ind + "  }")
                     out.append(ind + "default: {")
+                    out.append(ind + "    OBS_BR(%d, %s);" % (site, v))
                     out += edge(lab, dflt, ind + "    ")
                     out.append(ind + "  }")
                     out.append(ind + "}")
